@@ -103,6 +103,7 @@ func runGenResume(p *core.Prog) *core.Result {
 		}
 		res.OK("execCtx."+fname+":owners", "", "accessed in (*vm).suspend / (*vm).resume")
 	}
+	genCtxPopped(p, res)
 	return res
 }
 
@@ -260,5 +261,6 @@ func runGenState(p *core.Prog) *core.Result {
 			res.Bad("(*generatorObject)."+name+":suspendedStart handled", p.Pos(fn.Pos()), "no test for genStateSuspendedStart: an abrupt completion of a fresh generator is not turned into 'completed'")
 		}
 	}
+	delegationCleared(p, res)
 	return res
 }
